@@ -154,6 +154,18 @@ def _either(a, b):
     return {k: a.get(k, False) or b.get(k, False) for k in set(a) | set(b)}
 
 
+def _suffix_of(value, p):
+    """the constant S when ``value`` builds ``<p> + S`` (any string-formatting spelling), else None"""
+    from ..x_emit import fold_format, PH
+
+    if any(isinstance(n, ast.FormattedValue) and n.format_spec is not None for n in ast.walk(value)):
+        return None
+    ff = fold_format(value)
+    if ff is None or len(ff[1]) != 1 or q.dotted(ff[1][0]) != p or ff[2] != ["s"] or not ff[0].startswith(PH) or PH in ff[0][1:]:
+        return None
+    return ff[0][1:]
+
+
 def rule_anchored(ck):
     rid = "C31.anchored"
     n_sites = 0
@@ -171,6 +183,9 @@ def rule_anchored(ck):
                 if isinstance(st, ast.AugAssign) and isinstance(st.op, ast.Add) and q.is_const(st.value, "$"):
                     return "dollar"
                 if isinstance(st, ast.Assign) and isinstance(st.value, ast.BinOp) and isinstance(st.value.op, ast.Add) and q.dotted(st.value.left) == p and q.is_const(st.value.right, "$"):
+                    return "dollar"
+                if isinstance(st, ast.Assign) and _suffix_of(st.value, p) == "$":
+                    # same concatenation written as f-string / % / str.format / "".join
                     return "dollar"
                 return "unknown"
             return val
@@ -905,6 +920,10 @@ def run(ck):
 
     ck.repo = canonical(ck.repo, ["tornado/routing.py", "tornado/util.py", "tornado/web.py"], keep_names=('_DEFAULT_AUTOESCAPE',))
 
+    # one level of delegation: new private helpers of routing.py (not the anchored ones) are inlined (vt.x_inline)
+    from .. import x_inline
+
+    ck.repo = x_inline.inline_repo(ck.repo, ["tornado/routing.py"], keep=['_find_groups', '_unquote_or_none'])
     guard_obligations(ck, ['_find_groups', '_unquote_or_none', '_re_unescape_replacement', '_load_ui_modules', '_load_ui_methods', '_execute', '_has_stream_request_body', '_parse_body'])
     ck.rule("C31.first-match", "RuleRouter.find_handler tries self.rules in insertion order and returns inside the loop at the first non-None delegate of a matching rule, else None; add_rules appends in order; Application keeps the catch-all rule last")
     ck.rule("C31.anchored", "string patterns are compiled with a trailing '$' and applied with match()/fullmatch() to request.path / request.host_name; a regex miss yields None")
